@@ -100,6 +100,17 @@ static uint64_t rnd(void)
     return z ^ (z >> 31);
 }
 
+/* a second stream for the data-arrival choices in poll(), so that a replayed schedule (which draws
+ * nothing from the first stream) sees the same arrivals */
+static uint64_t rng2;
+static uint64_t rnd2(void)
+{
+    uint64_t z = (rng2 += 0x9E3779B97F4A7C15ULL);
+    z = (z ^ (z >> 30)) * 0xBF58476D1CE4E5B9ULL;
+    z = (z ^ (z >> 27)) * 0x94D049BB133111EBULL;
+    return z ^ (z >> 31);
+}
+
 static void tr(const char *fmt, ...)
 {
     va_list ap;
@@ -283,9 +294,10 @@ static int schedule(void)
             /* optional extras: spurious wake-ups, ticks, signals */
             if (spur_budget > 0)
                 for (int k = 0; k < nthr; k++)
-                    if (T[k].used && !T[k].done && T[k].op == OP_RELOCK && !T[k].woken && (int)(rnd() % 100) < pspur)
+                    if (T[k].used && !T[k].done && T[k].op == OP_RELOCK && !T[k].woken && (replay || (int)(rnd() % 100) < pspur))
                         acts[n++] = -2 - k;
-            if (sleepers && (int)(rnd() % 100) < ptick) acts[n++] = -1;
+            /* when replaying, every legal action is on offer: the file decides */
+            if (sleepers && (replay || (int)(rnd() % 100) < ptick)) acts[n++] = -1;
         } else {
             if (spur_budget > 0)
                 for (int k = 0; k < nthr; k++)
@@ -294,7 +306,7 @@ static int schedule(void)
             if (sleepers && progress_possible && idle_ticks < 100000) acts[n++] = -1;
         }
         for (int i = 0; i < nsigs; i++)
-            if (!sigs[i].done && step >= sigs[i].at && !sig_pending) { acts[n++] = -1000 - i; }
+            if (!sigs[i].done && (replay || step >= sigs[i].at) && !sig_pending) { acts[n++] = -1000 - i; }
         if (n == 0) die_deadlock();
         {
             int a = next_choice(acts, n);
@@ -305,7 +317,7 @@ static int schedule(void)
             if (a <= -1000) {
                 int i = -1000 - a;
                 sigs[i].done = 1; sig_pending = sigs[i].signo;
-                tr("SIGARRIVE %d", sig_pending);
+                tr("SIGARRIVE %d idx %d", sig_pending, i);
                 continue;
             }
             {
@@ -528,9 +540,9 @@ int __wrap_poll(struct pollfd *fds, nfds_t n, int timeout)
             fds[i].revents = 0;
             if (s && stream_ready(s)) ready[nr++] = (int)i;
         }
-        if (nr > 1 && rnd() % 2) {           /* drop some, keep at least one */
-            int keep = ready[rnd() % nr];
-            for (int j = 0; j < nr; j++) if (ready[j] != keep && rnd() % 2) ready[j] = -1;
+        if (nr > 1 && rnd2() % 2) {           /* drop some, keep at least one */
+            int keep = ready[rnd2() % nr];
+            for (int j = 0; j < nr; j++) if (ready[j] != keep && rnd2() % 2) ready[j] = -1;
         }
         for (int j = 0; j < nr; j++) if (ready[j] >= 0) { fds[ready[j]].revents = POLLIN; rv++; }
     }
@@ -659,6 +671,7 @@ int main(int argc, char **argv)
     int rc;
     if ((s = getenv("SCHED_TRACE"))) trace = fopen(s, "w");
     rng = (s = getenv("SCHED_SEED")) ? strtoull(s, NULL, 10) : 1;
+    rng2 = rng ^ 0x5DEECE66DULL;
     if ((s = getenv("SCHED_REPLAY"))) replay = fopen(s, "r");
     spur_budget = (s = getenv("SCHED_SPUR")) ? atoi(s) : 0;
     if ((s = getenv("SCHED_PSPUR"))) pspur = atoi(s);
